@@ -54,7 +54,8 @@ class DiagX(SDEFunction):
         super().__init__(m=dimension, d=dimension)
 
     def __call__(self, t: float, x: np.array) -> np.array:
-        return np.diag(x)
+        # x is the column (m, 1) of the single scheme or the stack (2, m, 1) of the coupled scheme (or a vector (m,))
+        return np.asarray(x) * np.eye(self.shape[0])
 
 
 class LiborSDEFunction(SDEFunction):
